@@ -187,6 +187,7 @@ func runC10(c *ev.Ctx) {
 	c10RefusedUnbind(c)
 	c10LateReplies(c)
 	c10SendFailsAfterDelivery(c)
+	c10SharedFile(c)
 }
 
 // (1) reply permutations.
